@@ -118,7 +118,20 @@ pub fn run_link_scenarios<F: Fn() -> Box<dyn Probe> + Sync>(
     max_dev: u32,
     wall_cap_s: f64,
 ) {
+    run_link_scenarios_from(rep, part, scenarios, max_dev, wall_cap_s, 0)
+}
+
+/// Same, the scenario indices recorded in replay files start at `base` (a second list of one property).
+pub fn run_link_scenarios_from<F: Fn() -> Box<dyn Probe> + Sync>(
+    rep: &mut Report,
+    part: &str,
+    scenarios: &[LinkScenario<F>],
+    max_dev: u32,
+    wall_cap_s: f64,
+    base: usize,
+) {
     for (i, sc) in scenarios.iter().enumerate() {
+        let i = i + base;
         let cfg = ExploreCfg {
             max_dev,
             wall_cap_s,
@@ -139,7 +152,11 @@ pub fn run_link_scenarios<F: Fn() -> Box<dyn Probe> + Sync>(
 
 /// Generic replay of a stored schedule of a link scenario list.
 pub fn replay_link<F: Fn() -> Box<dyn Probe> + Sync>(scenarios: &[LinkScenario<F>], j: &crate::json::J) -> i32 {
-    let idx = j.get("scenario_index").and_then(|x| x.as_i()).unwrap_or(0) as usize;
+    replay_link_from(scenarios, j, 0)
+}
+
+pub fn replay_link_from<F: Fn() -> Box<dyn Probe> + Sync>(scenarios: &[LinkScenario<F>], j: &crate::json::J, base: usize) -> i32 {
+    let idx = (j.get("scenario_index").and_then(|x| x.as_i()).unwrap_or(0) as usize).wrapping_sub(base);
     let Some(sc) = scenarios.get(idx) else {
         eprintln!("scenario index {} out of range", idx);
         return 2;
